@@ -18,6 +18,10 @@ def valid_images(ctx, h, n):
                 imgs.append(bytes.fromhex(p[4:]))
     return imgs
 
+def valid_images_of(ctx, h, hist):
+    outs = ctx.run_lines_robust(h, ["serde"], hist, env={"HARNESS_LINE_TIMEOUT_S": "8"})
+    return [bytes.fromhex(p[4:]) for o in outs for p in o.split("\t") if p.startswith("img=")]
+
 def u64(n):
     return struct.pack(">Q", n)
 
@@ -68,6 +72,15 @@ def run(ctx):
     for im in imgs:
         cases.append(im)
         cases += mutants(r, im, quick)
+    # saved dates: every (year kind, month, day 28..31) combination the format can express, valid or not — a loaded context is then
+    # stepped with + / - days, months (date arithmetic must not crash on what the loader let through)
+    for im in valid_images_of(ctx, h, ["v0 = @2024-01-31"]):
+        k = im.find(bytes([0, 0, 7, 0xe8, 1, 31]))
+        if k >= 0:
+            for year in (2024, 2023, 1900, 2000, 1, 2147483647):
+                for month in range(1, 13):
+                    for day in (1, 28, 29, 30, 31):
+                        cases.append(im[:k] + struct.pack(">i", year) + bytes([month, day]) + im[k + 6:])
     for _ in range(500 if quick else 20000):
         cases.append(bytes(r.randrange(256) for _ in range(r.randint(0, 60))))
     for seed_len in (2**64 - 1, 2**63, 2**32, 2**31):
